@@ -67,6 +67,60 @@ CHECKS['C01'] = {
     'design': 'DESIGN.md section 3 C01',
 }
 
+ROUTER_NOTE = ("Modelled, not verified: StreamMap 0.1.14, HashMap iteration order (read from the trace), futures::mpsc receiver/waker discipline, "
+               "Vec::swap_remove - validated event-for-event (incl. wake-up bits) by the acceptor on every implementation trace. Executor contract (re-poll after wake) assumed.")
+
+CHECKS['C02'] = {
+    'technique': 'machine-checked proof in Coq (invariants of the req/rep router LTS: reply accounting, origin tagging) + trace-acceptor correspondence and trace predicates',
+    'text': ("reqrep::Topic::poll and Router (Sink<Frame>) are modelled as an executable transition system; the real Topic future is driven with scripted requestors/repliers "
+             "(forged/junk tags, colliding req_ids, out-of-order and junk replies, bursts of repliers) and every implementation trace must be accepted event-for-event, "
+             "with exact frames (tag overwritten on requests, tag stripped on replies, other headers and payload intact) and wake-up bits. PROVED for every accepted trace: "
+             "every reply pulled is forwarded, refused by its own requestor's sink or discarded for its tag, except the one buffered - none overwritten or lost however slow "
+             "requestors are; every request handed to a replier is a pulled request carrying the router-assigned key (origin unforgeable, rest intact). NOT YET PROVED (evaluated "
+             "as predicates on every implementation trace and on the model state): order / at-most-once of requests, delivery of each reply to exactly the deserving requestor."),
+    'note': ROUTER_NOTE,
+    'design': 'DESIGN.md section 3 C02',
+}
+CHECKS['C08'] = {
+    'technique': 'machine-checked proof in Coq (pub/sub invariant under arbitrary failures; eviction lemma; req/rep totality) + fault-injecting trace-acceptor correspondence',
+    'text': ("PROVED for every accepted trace of the pub/sub router model, with any peer failing at any operation at any point: every subscriber (in particular every healthy one) "
+             "holds a gap-free, in-order, duplicate-free prefix of what was pulled since its registration, missing at most the item in flight; an Err answer evicts exactly the "
+             "answering subscriber; no panic. For the req/rep router: no panic for any failure/frame/schedule and no reply lost. Unbinding of a failed replier and re-binding, and "
+             "non-interference between requestors, are carried by the model and checked by the acceptor and the trace predicates on every implementation trace with injected "
+             "errors (sink ready/send/flush errors, stream errors and ends), not yet theorems."),
+    'note': ROUTER_NOTE,
+    'design': 'DESIGN.md section 3 C08',
+}
+CHECKS['C09'] = {
+    'technique': 'machine-checked proof in Coq (no sleep on undone work for pub/sub) + wake-bit trace-acceptor correspondence, spin watchdog and wake-driven executor runs',
+    'text': ("PROVED (pub/sub): from every reachable state, a poll in which no subscriber answers Pending returns only after everything pulled was delivered to every live subscriber "
+             "and flushed. The model predicts for every environment action (queue a socket, close the channel, fire a peer's kept waker) whether the router task is woken; every "
+             "implementation trace must agree bit for bit, which is what exposes a registration channel left unarmed. Every generated history ends with a wake-driven phase (sinks "
+             "ready, task polled only when woken) after which everything must be delivered/flushed (pub/sub) resp. every deserved reply delivered (req/rep) and, after close, the "
+             "future must have completed. Bounded work per poll: predicate on implementation traces (calls per poll <= linear in data consumed), a 20000-call spin limit and a 4 s "
+             "watchdog for mock-free spins. The bounded-step theorem is not yet proved."),
+    'note': ROUTER_NOTE,
+    'design': 'DESIGN.md section 3 C09',
+}
+CHECKS['C10'] = {
+    'technique': 'machine-checked proof in Coq (single-bound invariant of the req/rep router LTS) + trace-acceptor correspondence and rejected-replier trace predicates',
+    'text': ("PROVED for every accepted trace: requests are only handed to a replier that was bound; a refused replier is never bound and never receives a request; the current "
+             "replier is a bound one; the rejection code is REPLIER_ALREADY_BOUND (5). CHECKED on every implementation trace (predicates + exact acceptance): the sink of a refused "
+             "replier sees poll_ready*, the error frame, poll_close* and nothing else; by the end of a wake-driven drained history every queued replier was either bound or told "
+             "and closed; the replier receiving requests never flips back; re-binding after the bound replier's stream ends is part of the accepted model behaviour."),
+    'note': ROUTER_NOTE,
+    'design': 'DESIGN.md section 3 C10',
+}
+CHECKS['C16'] = {
+    'technique': 'machine-checked proof in Coq (flush invariant of the pub/sub router LTS) + close-at-random-point wake-driven runs of both routers',
+    'text': ("PROVED (pub/sub): whenever the router's future completes, the buffered message was handed over and every live subscriber holds, flushed, everything pulled since its "
+             "registration. CHECKED on implementation traces of both routers: the registration channel is closed at a random point of every third history and in the final phase of "
+             "40% of them; under the wake-driven executor with ready sinks the future must complete (this is what detects a channel whose waker was not re-armed), and the "
+             "completion predicates must hold. Termination (bounded polls after close) is not yet a theorem; Server::shutdown's close-then-join is exercised by the net scenarios."),
+    'note': ROUTER_NOTE,
+    'design': 'DESIGN.md section 3 C16',
+}
+
 ALL = ['C%02d' % i for i in range(1, 18)]
 
 PENDING_REASON = "check under construction in this session (model and harness not yet committed); it will be claimed once its check is committed"
